@@ -100,10 +100,10 @@ type BodyRef struct {
 	Attestations       *phase0.Attestations
 	Deposits           *phase0.Deposits
 	VoluntaryExits     *phase0.VoluntaryExits
-	SyncAggregate      *altair.SyncAggregate              // altair+
-	Payload            *PayloadRef                        // bellatrix+
+	SyncAggregate      *altair.SyncAggregate               // altair+
+	Payload            *PayloadRef                         // bellatrix+
 	BLSChanges         *common.SignedBLSToExecutionChanges // capella+
-	BlobKZGCommitments *deneb.KZGCommitments              // deneb
+	BlobKZGCommitments *deneb.KZGCommitments               // deneb
 }
 
 // Header returns pointers to slot, proposer, parent root, state root and signature.
